@@ -52,7 +52,7 @@ func runC01(c *Ctx) {
 		// attach gated by canAttachOrRemove attach==true
 		g := GBool("canAttachOrRemove().attach==true", CalleeFn(canAttach), 0, true)
 		for _, fn := range []*ssa.Function{tAdd, tAttach} {
-			c.RequireGate("C01.1-attach-gated", fn, g, CallSinks(fn, CalleeFn(tAttach), false), "call Tree.attach")
+			c.RequireGate("C01.1-attach-gated", fn, g, CallSinksX(fn, CalleeFn(tAttach), false), "call Tree.attach")
 		}
 		// who may call attach
 		whoMayCall(c, "C01.1-attach-gated", otFuncs, CalleeFn(tAttach), "Tree.attach", map[*ssa.Function]string{tAdd: "gated", tAttach: "wait-list, gated"})
@@ -270,10 +270,10 @@ func runC01(c *Ctx) {
 		chu := calleeMethod("tree/synctree", "CreateHeadUpdate")
 		addC := calleeMethod("tree/objecttree", "AddContentWithValidator")
 		fn := p.Func(stPkg + ":(*syncTree).AddContentWithValidator")
-		c.RequireGate("C01.3-persist-before-advertise", fn, GErrNil("ObjectTree.AddContentWithValidator()==nil", addC), CallSinks(fn, AnyOf(bc, chu), false), "head update creation/broadcast")
+		c.RequireGate("C01.3-persist-before-advertise", fn, GErrNil("ObjectTree.AddContentWithValidator()==nil", addC), CallSinksX(fn, AnyOf(bc, chu), false), "head update creation/broadcast")
 		fn2 := p.Func(stPkg + ":(*syncTree).AddRawChangesFromPeer")
 		addRaw := p.Func(stPkg + ":(*syncTree).AddRawChanges")
-		c.RequireGate("C01.3-persist-before-advertise", fn2, GErrNil("AddRawChanges()==nil", CalleeFn(addRaw)), CallSinks(fn2, AnyOf(bc, chu), false), "head update creation/broadcast")
+		c.RequireGate("C01.3-persist-before-advertise", fn2, GErrNil("AddRawChanges()==nil", CalleeFn(addRaw)), CallSinksX(fn2, AnyOf(bc, chu), false), "head update creation/broadcast")
 		// AddRawChanges delegates to AddRawChangesWithUpdater and returns its verdict
 		arwu := calleeMethod("tree/objecttree", "AddRawChangesWithUpdater")
 		by, _ := MustPass(addRaw, nil, CutAtCall(arwu), SuccessReturns(addRaw), nil)
@@ -449,7 +449,9 @@ func runC01CommonSnapshot(c *Ctx) {
 // the objecttree rows of C10's rule M, evaluated by the same code.
 func runC01Realign(c *Ctx) {
 	sub := NewCtx(c.P, "C10", c.Tier)
-	runC10(sub)
+	if !runShared(c, "C10", func() { runC10(sub) }) {
+		return
+	}
 	n := 0
 	for _, o := range sub.Obls {
 		if o.Rule != "C10.M-realign-on-error" || !strings.Contains(o.Key, "objecttree.objectTree)") {
